@@ -258,7 +258,7 @@ Proof.
     - exact IA1. }
   eapply wp_conseq; [exact LOOP|].
   - intros c s2 (Hc & I2).
-    assert (FIN : forall s3, inv_as b c0 s1 s3 -> None = None /\ as_post b c0 s s3).
+    assert (FIN : forall s3, inv_as b c0 s1 s3 -> @None err = None /\ as_post b c0 s s3).
     { intros s3 (H3 & F3 & P3 & R3). split; [reflexivity|]. split; [exact H3|].
       split; [exact (F_trans _ _ _ F1 F3)|]. split; [exact P3|]. intros q. now rewrite R3, R1. }
     destruct c; [| |destruct Hc as [Hc|Hc]; discriminate].
@@ -266,10 +266,10 @@ Proof.
       * apply wp_ret. now apply FIN.
       * apply wp_bind. eapply wp_conseq. apply (wp_fill_slots b c0 s1 (S (length (nodes s2))) s2 I2 RO).
         -- pose proof (ncount_le s2). lia.
-        -- intros _ s3 I3. apply wp_ret. now apply FIN.
+        -- intros u s3 I3. apply wp_ret. now apply FIN.
     + apply wp_bind. apply wp_get. destruct (ronly s2) eqn:RO.
       * apply wp_ret. now apply FIN.
       * apply wp_bind. eapply wp_conseq. apply (wp_fill_slots b c0 s1 (S (length (nodes s2))) s2 I2 RO).
         -- pose proof (ncount_le s2). lia.
-        -- intros _ s3 I3. apply wp_ret. now apply FIN.
+        -- intros u s3 I3. apply wp_ret. now apply FIN.
 Qed.
